@@ -9,4 +9,5 @@ Extraction "model.ml" Z.add Z.compare tree_layer part_all
   rewrite_filters contains getitem setitem wf_check
   rule_name rule_ok den schema
   fused_task valid_group self_fresh rule_ok_strict mu mu_ltb
-  extract arrow_keep pandas_keep partitions_divisions fused_divisions fusion_buckets truthfulb.
+  extract arrow_keep pandas_keep partitions_divisions fused_divisions fusion_buckets truthfulb
+  fewer_divisions head_divisions bhead_divisions tail_divisions concat_divisions.
